@@ -118,6 +118,18 @@ Definition check_case (c : case) : bool :=
       end
   end.
 
+(* the project's cross-language vectors against the specification (gen/StdVectors.v) *)
+Definition check_vector (x : schema * string * value * list Z) : bool :=
+  let '(sc, name, v, bytes) := x in
+  match resolve sc name with
+  | Some t =>
+      match canon t v with
+      | Some cv => has_type t cv && option_eqb (list_eqb Z.eqb) (wire_bytes t cv) (Some bytes)
+      | None => false
+      end
+  | None => false
+  end.
+
 (* for replays: what the model computes *)
 Definition model_of (c : case) :=
   let '(sc, name, o) := c in
